@@ -42,9 +42,36 @@ fn encode_with(json: &str, dtype: &str, shape: &[u64], fill: &[u8], data: &[Vec<
     }).ok()
 }
 
+/// `c03 fsorep`: what the first array->array codec of the chain ADVERTISES for a chunk representation
+/// (`encoded_representation`: data type, fill value bytes, shape; `decoded_shape` of that shape): `val …` or `err`
+fn exec_fsorep(m: &std::collections::BTreeMap<String, String>) -> String {
+    guarded(|| {
+        let json = String::from_utf8(unhex(&m["json"])).unwrap();
+        let mds: Vec<MetadataV3> = match serde_json::from_str(&json) { Ok(x) => x, Err(_) => return "err-json".into() };
+        let chain = match CodecChain::from_metadata(&mds) { Ok(c) => Arc::new(c), Err(_) => return "err-chain".into() };
+        let shape = pnl(&m["shape"]);
+        let rep = match repr(&m["dtype"], &shape, &unhex(&m["fill"])) { Some(r) => r, None => return "err-repr".into() };
+        let a2a = chain.array_to_array_codecs();
+        let codec = match a2a.first() { Some(c) => c.codec(), None => return "err-nocodec".into() };
+        match codec.encoded_representation(&rep) {
+            Ok(r) => {
+                let back = codec.decoded_shape(r.shape()).ok().flatten().map(|s| nl(&s.iter().map(|x| x.get()).collect::<Vec<u64>>())).unwrap_or("none".into());
+                // the three mappings asked one by one must say the same
+                let one = match (codec.encoded_data_type(rep.data_type()), codec.encoded_fill_value(rep.data_type(), rep.fill_value()), codec.encoded_shape(rep.shape())) {
+                    (Ok(d), Ok(f), Ok(s)) => &d == r.data_type() && f.as_ne_bytes() == r.fill_value().as_ne_bytes() && s.as_slice() == r.shape(),
+                    _ => false,
+                };
+                format!("val dtype={} fill={} shape={} back={} same={}", r.data_type().name(), hex(r.fill_value().as_ne_bytes()), nl(&r.shape_u64()), back, one)
+            }
+            Err(e) => { let _ = e.to_string(); "err".into() }
+        }
+    })
+}
+
 pub fn exec(line: &str) -> String {
     let (v, m) = parse_line(line);
     if v.get(1).map(|s| s == "vdec").unwrap_or(false) { return exec_vdec(&m); }
+    if v.get(1).map(|s| s == "fsorep").unwrap_or(false) { return exec_fsorep(&m); }
     if v.get(1).map(|s| s == "chains" || s == "chaindec" || s == "chainpd").unwrap_or(false) { return crate::c03c::exec(line); }
     guarded(|| {
         let json = String::from_utf8(unhex(&m["json"])).unwrap();
@@ -288,6 +315,7 @@ pub fn generate(tier: &str, seed: u64) -> Vec<String> {
     }
     // (nested) sharded chains: see c03c.rs
     generate_zfp(tier, seed, &mut out);
+    generate_fso(tier, seed, &mut out);
     out.extend(crate::c03c::generate(tier, seed));
     out
 }
@@ -326,5 +354,124 @@ fn generate_zfp(tier: &str, seed: u64, out: &mut Vec<String>) {
         };
         out.push(format!("c03 codec lossy=zfp:{} dtype={} es={} shape={} fill={} modelled=0 model=zfp json={} data={}", spec, name, es, nl(&shape), hex(&vec![0u8; es]),
             hex(format!("[{{\"name\":\"zfp\",\"configuration\":{}}}]", cfg).as_bytes()), show_elems(&elems)));
+    }
+}
+
+/// the data types of the `fixedscaleoffset` tie: (v3 name, v2 names, element size, signed, float)
+const FSO_TYPES: [(&str, &[&str], usize, bool, bool); 10] = [
+    ("int8", &["|i1", "i1"], 1, true, false), ("uint8", &["u1", "u1", "u1", "u1", "u1", "u1", "u1", "|u1"], 1, false, false),
+    ("int16", &["i2", "<i2", ">i2"], 2, true, false), ("uint16", &["u2", "<u2"], 2, false, false),
+    ("int32", &["i4", "<i4"], 4, true, false), ("uint32", &["u4", "<u4", ">u4"], 4, false, false),
+    ("int64", &["i8", "<i8"], 8, true, false), ("uint64", &["u8", "<u8"], 8, false, false),
+    ("float32", &["f4", "<f4"], 4, true, true), ("float64", &["f8", "<f8", ">f8"], 8, true, true),
+];
+
+/// an integer type of the table; int8 rarely (no spelling of it is accepted by the codec: `|i1` becomes `<|i1`, `i1` becomes `<i1`)
+fn fso_pick_int(rng: &mut Rng) -> usize { let i = rng.below(8) as usize; if i == 0 && !rng.chance(1, 5) { 1 + rng.below(7) as usize } else { i } }
+fn fso_pick_any(rng: &mut Rng) -> usize { let i = rng.below(10) as usize; if i == 0 && !rng.chance(1, 5) { 1 + rng.below(9) as usize } else { i } }
+fn fso_int_bytes(v: i128, es: usize) -> Vec<u8> { (0..es).map(|i| (v >> (8 * i)) as u8).collect() }
+fn fso_range(es: usize, signed: bool) -> (i128, i128) {
+    let bits = 8 * es as u32;
+    if signed { (-(1i128 << (bits - 1)), (1i128 << (bits - 1)) - 1) } else { (0, (1i128 << bits) - 1) }
+}
+
+/// `numcodecs.fixedscaleoffset` predicted EXACTLY by the model (Model/FixedScaleOffset.lean):
+/// * `c03 codec lossy=fsox:<offset token>:<scale token>:<dtype>:<astype|->`: integer element types x integer `astype`
+///   (none, same, narrower, wider, other signedness; now and then a float one) x offsets of both signs (also one no `f32`
+///   holds: 16777217) x scale 1, small integer scales and 0.5, data including the extremes of the type, the values around the
+///   offset and (64-bit) around 2^53 / 2^63; float element types with dyadic data (ties included) under power-of-two scales
+///   (inside the exactness predicate) and under 3 / 10 / 100 / 0.1 (outside: judged with tolerance), never saturating `astype`;
+///   the encoded bytes are printed (`enc=`) and predicted.  (int8 cannot be configured: `|i1` and `i1` are both refused when the codec is created, as is `|u1`;
+///   a few such lines are kept: `err-chain`.)
+/// * `c03 fsorep`: what the codec advertises (`encoded_representation`) for a chunk representation, including the
+///   representations it must refuse (another data type than configured; float16 / complex / bool).
+fn generate_fso(tier: &str, seed: u64, out: &mut Vec<String>) {
+    let mut rng = Rng::new(seed ^ 0xC03_F50);
+    let n = if tier == "thorough" { 8000 } else { 1000 };
+    let int_offsets: [&str; 16] = ["0", "0", "1", "-1", "3", "-3", "100", "-100", "128", "-128", "1000", "-1000", "70000", "-70000", "16777217", "-300"];
+    for k in 0..n {
+        let float_class = k % 10 >= 7;
+        let (name, v2s, es, signed, _) = if float_class { FSO_TYPES[8 + rng.below(2) as usize] } else { FSO_TYPES[fso_pick_int(&mut rng)] };
+        let v2 = *rng.pick(v2s);
+        let cnt = rng.range(1, 12);
+        if !float_class {
+            // integer element type
+            let (lo, hi) = fso_range(es, signed);
+            let a = match rng.below(8) { 0 | 1 => None, 2 => Some(FSO_TYPES.iter().position(|t| t.0 == name).unwrap()), 7 if rng.chance(1, 3) => Some(8 + rng.below(2) as usize), _ => Some(fso_pick_int(&mut rng)) };
+            let astype = a.map(|i| *rng.pick(FSO_TYPES[i].1));
+            let mut off = rng.pick(&int_offsets).to_string();
+            if rng.chance(1, 8) { off = match rng.below(4) { 0 => lo.max(-(1 << 40)).to_string(), 1 => hi.min(1 << 40).to_string(), 2 => ((hi + 1) / 2).min(1 << 40).to_string(), _ => "2147483648".into() }; }
+            let scale = *rng.pick(&["1", "1", "1", "1", "2", "3", "5", "10", "0.5"]);
+            let o: i128 = off.parse().unwrap();
+            let (alo, ahi) = a.map(|i| if FSO_TYPES[i].4 { (lo, hi) } else { fso_range(FSO_TYPES[i].2, FSO_TYPES[i].3) }).unwrap_or((lo, hi));
+            let elems: Vec<Vec<u8>> = (0..cnt).map(|_| {
+                let v: i128 = match rng.below(12) {
+                    0 => lo, 1 => hi, 2 => lo + 1, 3 => hi - 1, 4 => 0, 5 => o, 6 => o + rng.below(5) as i128 - 2,
+                    // around the edges of `astype` seen through the offset
+                    7 => o + alo + rng.below(3) as i128 - 1, 8 => o + ahi + rng.below(3) as i128 - 1,
+                    9 if es == 8 => *rng.pick(&[1i128 << 53, (1 << 53) + 1, (1 << 53) - 1, -(1 << 53) - 1, (1 << 62) + 12345, (1 << 63) - 1, (1 << 63) + 1025, (1 << 54) + 2, (1 << 54) + 6]),
+                    10 => rng.below(600) as i128 - 300,
+                    _ => { let b = rng.bytes(es); let mut v = 0i128; for (i, x) in b.iter().enumerate() { v |= (*x as i128) << (8 * i); } if signed && v > hi { v - (1i128 << (8 * es)) } else { v } }
+                };
+                fso_int_bytes(v.clamp(lo, hi), es)
+            }).collect();
+            let cfg = format!("{{\"offset\":{},\"scale\":{},\"dtype\":\"{}\"{}}}", off, scale, v2, astype.map(|a| format!(",\"astype\":\"{}\"", a)).unwrap_or_default());
+            out.push(format!("c03 codec lossy=fsox:{}:{}:{}:{} dtype={} es={} shape={} fill={} modelled=1 model=fixedscaleoffset json={} data={}", off, scale, v2, astype.unwrap_or("-"), name, es, cnt, hex(&vec![0u8; es]),
+                hex(format!("[{{\"name\":\"numcodecs.fixedscaleoffset\",\"configuration\":{}}},{{\"name\":\"bytes\",\"configuration\":{{\"endian\":\"little\"}}}}]", cfg).as_bytes()), show_elems(&elems)));
+        } else {
+            // float element type: dyadic data; `astype` wide enough for every encoded value (no saturation)
+            let off = *rng.pick(&["0", "0", "-3", "1000", "0.5", "-0.25", "100", "16777217"]);
+            let scale = *rng.pick(&["1", "1", "2", "4", "8", "0.5", "0.25", "3", "10", "100", "0.1"]);
+            let (o, sc): (f64, f64) = (off.parse::<f32>().unwrap() as f64, scale.parse::<f32>().unwrap() as f64);
+            let kind = rng.below(5);
+            let vals: Vec<f64> = (0..cnt).map(|i| match kind {
+                0 => (rng.below(200000) as f64 - 100000.0) / 8.0,
+                1 => (rng.below(4000) as f64 - 2000.0) / 2.0,                       // halves: ties under scale 1
+                2 => rng.below(60000) as f64 - 30000.0,
+                3 => if rng.chance(1, 30) { -0.0 } else { o + (rng.below(41) as f64 - 20.0) / 4.0 },   // around the offset (encodings around zero, both signs); a negative zero
+                _ => if es == 8 { 1099511627776.0 + (rng.below(4096) as f64) / 8.0 } else { 16777000.0 + (i as f64) * 50.0 + rng.below(40) as f64 },
+            }).collect();
+            let maxenc = vals.iter().map(|v| ((v - o) * sc).abs()).fold(0.0, f64::max) + 2.0;
+            let cands: Vec<&str> = [("", 0.0), ("f4", 0.0), ("f8", 0.0), ("u1", -255.0), ("i2", 32767.0), ("u2", -65535.0), ("i4", 2147483647.0), ("u4", -4294967295.0), ("i8", 9.0e18), ("u8", -1.8e19)].iter()
+                .filter(|(a, lim)| *lim == 0.0 || (*lim > 0.0 && maxenc <= *lim) || (*lim < 0.0 && maxenc <= -*lim && vals.iter().all(|v| (v - o) * sc >= 0.5)))
+                .filter(|(a, _)| !(*a == "f8" && es == 4)).map(|(a, _)| *a).collect();
+            let astype = *rng.pick(&cands);
+            let elems: Vec<Vec<u8>> = vals.iter().map(|v| if es == 4 { (*v as f32).to_le_bytes().to_vec() } else { v.to_le_bytes().to_vec() }).collect();
+            let cfg = format!("{{\"offset\":{},\"scale\":{},\"dtype\":\"{}\"{}}}", off, scale, v2, if astype.is_empty() { String::new() } else { format!(",\"astype\":\"{}\"", astype) });
+            out.push(format!("c03 codec lossy=fsox:{}:{}:{}:{} dtype={} es={} shape={} fill={} modelled=1 model=fixedscaleoffset json={} data={}", off, scale, v2, if astype.is_empty() { "-" } else { astype }, name, es, cnt, hex(&vec![0u8; es]),
+                hex(format!("[{{\"name\":\"numcodecs.fixedscaleoffset\",\"configuration\":{}}},{{\"name\":\"bytes\",\"configuration\":{{\"endian\":\"little\"}}}}]", cfg).as_bytes()), show_elems(&elems)));
+        }
+        // what the codec advertises
+        if k % 3 == 0 {
+            let (cname, cv2s, ces, csigned, cfloat) = FSO_TYPES[fso_pick_any(&mut rng)];
+            let cv2 = *rng.pick(cv2s);
+            let a = if rng.chance(1, 3) { None } else { Some(fso_pick_any(&mut rng)) };
+            let mut astype: Option<&str> = a.map(|i| *rng.pick(FSO_TYPES[i].1));
+            let mut cfg_dtype = cv2;
+            // the representation asked about: mostly of the configured data type; sometimes another one (refused), or a
+            // configuration on a data type the arithmetic does not cover
+            let (mut rname, mut res) = (cname, ces);
+            match rng.below(30) {
+                0 | 5 => { let t = FSO_TYPES[rng.below(10) as usize]; rname = t.0; res = t.2; }
+                1 => { cfg_dtype = "f2"; rname = "float16"; res = 2; }
+                2 => { cfg_dtype = "c8"; rname = "complex64"; res = 8; }
+                3 => { cfg_dtype = "|b1"; rname = "bool"; res = 1; }
+                4 => { astype = Some("f2"); }
+                _ => {}
+            }
+            let off = if cfloat { *rng.pick(&["0", "-3", "1000", "0.5", "-0.25"]) } else { *rng.pick(&["0", "1", "-1", "3", "-3", "100", "-100", "1000", "-70000", "16777217"]) };
+            let scale = if cfloat { *rng.pick(&["1", "2", "4", "0.5", "10", "0.1"]) } else { *rng.pick(&["1", "1", "2", "3", "10", "0.5"]) };
+            let fill: Vec<u8> = if rname == "bool" { vec![rng.below(2) as u8] } else if rname == "float16" || rname == "complex64" { rng.bytes(res) }
+                else if rname.starts_with("float") { let v = match rng.below(4) { 0 => 0.0, 1 => (rng.below(2000) as f64 - 1000.0) / 4.0, 2 => off.parse::<f64>().unwrap(), _ => rng.below(100000) as f64 - 50000.0 }; if res == 4 { (v as f32).to_le_bytes().to_vec() } else { v.to_le_bytes().to_vec() } }
+                else { let t = FSO_TYPES.iter().find(|t| t.0 == rname).unwrap(); let (lo, hi) = fso_range(t.2, t.3); let o: i128 = off.parse::<f64>().unwrap() as i128;
+                       let v = match rng.below(7) { 0 => lo, 1 => hi, 2 => 0, 3 => o, 4 => o + rng.below(200) as i128 - 100, 5 => rng.below(1000) as i128, _ => { let b = rng.bytes(t.2); let mut v = 0i128; for (i, x) in b.iter().enumerate() { v |= (*x as i128) << (8 * i); } v } };
+                       let v = if v > hi && csigned { v - (1i128 << (8 * t.2)) } else { v };
+                       fso_int_bytes(v.clamp(lo, hi), t.2) };
+            let rank = rng.range(1, 3) as usize;
+            let shape: Vec<u64> = (0..rank).map(|_| rng.range(1, 9)).collect();
+            let cfg = format!("{{\"offset\":{},\"scale\":{},\"dtype\":\"{}\"{}}}", off, scale, cfg_dtype, astype.map(|a| format!(",\"astype\":\"{}\"", a)).unwrap_or_default());
+            out.push(format!("c03 fsorep cfg={}:{}:{}:{} dtype={} shape={} fill={} json={}", off, scale, cfg_dtype, astype.unwrap_or("-"), rname, nl(&shape), hex(&fill),
+                hex(format!("[{{\"name\":\"numcodecs.fixedscaleoffset\",\"configuration\":{}}},{{\"name\":\"bytes\",\"configuration\":{{\"endian\":\"little\"}}}}]", cfg).as_bytes())));
+        }
     }
 }
